@@ -293,6 +293,12 @@ int main(void)
 			s->have_cw = (st == OF_STATUS_OK);
 			printf("@ok st=%s\n", stname(st)); goto next;
 		}
+		if (!strcmp(op, "cwdump")) {
+			if (!s->have_cw) { printf("@bad-op\n"); goto next; }
+			printf("@ok cw=");
+			for (unsigned e = 0; e < s->n; e++) { if (e) printf(";"); hex(s->cw[e], s->len); }
+			printf("\n"); goto next;
+		}
 		if (!strcmp(op, "build")) {
 			if (sscanf(line, "%*s %*d %u %63s", &a, w1) != 2 || !s->have_cw) { printf("@bad-op\n"); goto next; }
 			if (!s->enc_tab) {
